@@ -145,7 +145,7 @@ def C04(chk):
                 invariants=["Agree", "NoDrift"], frame=(8, 2, 1, ("a", "eac")) if q else (9, 4, 2, ("a", "eac")))
     apply_l1(chk, ["wm", "lc1", "lc3", "bidi"], nontrivial_key="runs")
     l3_run(chk, "usernames-limits", driver="limits", per_string=2, kinds=["enforce"], profiles=profs, seed_offset=5)
-    l3_run(chk, "usernames", strings=500 if q else 6000, per_string=4, kinds=["enforce", "enforce", "prepare"], profiles=profs)
+    l3_run(chk, "usernames", strings=1200 if q else 8000, per_string=4, kinds=["enforce", "enforce", "prepare"], profiles=profs)
     if not q:
         import selftest
         chk.notes.append("binding self-test: " + selftest.selftest_l3())
@@ -165,9 +165,11 @@ def C05(chk):
     profiles_mc(chk, "opq-spaces", ["a", "A", "SP", "NBSP", "OGH", "ISP", "EQD", "EMSP", "TAB", "DEL"], n, ["OPQ"], ops, insts)
     profiles_mc(chk, "opq-hangul", ["jamo", "jamoV", "jamoT", "hsyl", "hcj", "a", "NBSP"], n, ["OPQ"], ops, insts)
     profiles_mc(chk, "opq-compat", ["a", "FWA", "rom4", "e", "acute", "angst", "emo", "NBSP", "diaer"], n, ["OPQ"], ops, insts)
+    profiles_mc(chk, "opq-framed", ["NBSP", "ISP", "e", "acute", "angst", "TAB"], 0, ["OPQ"], ["enforce"], (0,),
+                invariants=["Agree", "OnlySpacesChange", "NoDrift"], frame=(8, 3, 2, ("a", "eac")) if q else (9, 9, 3, ("a", "eac", "han")))
     apply_l1(chk, ["osp"], nontrivial_key="zs")
     l3_run(chk, "opaque-limits", driver="limits", per_string=2, kinds=["enforce"], profiles=["OPQ"], seed_offset=5)
-    l3_run(chk, "opaque", strings=500 if q else 6000, per_string=3, kinds=["enforce", "enforce", "prepare", "additional_mapping_rule"], profiles=["OPQ"])
+    l3_run(chk, "opaque", strings=1200 if q else 8000, per_string=3, kinds=["enforce", "enforce", "prepare", "additional_mapping_rule"], profiles=["OPQ"])
     chk.cov["exhaustive"] = True
     chk.cov["rule"] = ("every string of length <= %d over two 9-role alphabets (all kinds of spaces incl. controls; compatibility, "
                        "case, decomposed and 4-byte characters), canonical + %d random instances; OpaqueString prepare / enforce / "
@@ -185,9 +187,11 @@ def C06(chk):
     profiles_mc(chk, "nick-hangul", ["jamo", "jamoV", "hsyl", "jamoT", "hcj", "a", "OGH", "SP"], n, ["NICK"], ops, insts)
     profiles_mc(chk, "nick-nfkc", ["e", "acute", "Eac", "cedil", "SP", "rom4", "angst", "hy"], n, ["NICK"], ops, insts)
     profiles_mc(chk, "nick-latin1", ["micro", "sup2", "ordm", "a", "SP", "diaer", "two"], n, ["NICK"], ops, insts)
+    profiles_mc(chk, "nick-framed", ["SP", "NBSP", "diaer", "rom4", "hcj", "emo"], 0, ["NICK"], ["enforce"], (0,),
+                invariants=["Agree", "FixedPoint", "NoDrift"], frame=(8, 3, 2, ("a", "eac", "SP")) if q else (9, 9, 3, ("a", "eac", "SP")))
     apply_l1(chk, ["nsp"], nontrivial_key="zs")
     l3_run(chk, "nickname-limits", driver="limits", per_string=2, kinds=["enforce"], profiles=["NICK"], seed_offset=5)
-    l3_run(chk, "nickname", strings=500 if q else 6000, per_string=3, kinds=["enforce", "enforce", "prepare"], profiles=["NICK"], max_len=10)
+    l3_run(chk, "nickname", strings=1200 if q else 8000, per_string=3, kinds=["enforce", "enforce", "prepare"], profiles=["NICK"], max_len=10)
     chk.cov["exhaustive"] = True
     chk.cov["rule"] = ("every string of length <= %d over a space alphabet (incl. U+00A8 whose NFKC introduces a leading space, so that "
                        "a second and third application are needed) and <= %d over a compatibility alphabet (incl. Hangul compatibility "
@@ -202,8 +206,10 @@ def C10(chk):
     profiles_mc(chk, "case", ["a", "A", "ypo", "dz", "dotI", "DSR", "Sig", "han"], n, ["UCM", "NICK"],
                 ["case_mapping_rule"], insts, invariants=["Agree", "MappingsAgree", "MappingsIdempotent"])
     profiles_mc(chk, "case-enforce", ["a", "A", "ypo", "dotI", "DSR", "Sig", "GRK", "Eac"], n - 1, ["UCM"], ["enforce"], insts)
+    profiles_mc(chk, "case-framed", ["A", "ypo", "dotI", "DSR", "Sig", "Eac"], 0, ["UCM", "NICK"], ["case_mapping_rule"], (0,),
+                invariants=["Agree", "MappingsAgree"], frame=(8, 3, 1, ("a", "eac", "han")) if q else (17, 5, 2, ("a", "eac", "han")))
     apply_l1(chk, ["lc"], nontrivial_key="lower")
-    l3_run(chk, "case", strings=400 if q else 5000, per_string=3, kinds=["case_mapping_rule", "case_mapping_rule", "enforce"], profiles=["UCM", "NICK"])
+    l3_run(chk, "case", strings=1000 if q else 6000, per_string=3, kinds=["case_mapping_rule", "case_mapping_rule", "enforce"], profiles=["UCM", "NICK"])
     chk.cov["exhaustive"] = True
     chk.cov["rule"] = ("every string of length <= %d over {lowercase, uppercase, titlecase (U+1F88, U+01C5), U+0130 (one-to-many), "
                        "4-byte cased, sigma, uncased} through case_mapping_rule of both profiles that define it, and <= %d through "
@@ -221,7 +227,7 @@ def C11(chk):
     profiles_mc(chk, "width-framed", ["FWA", "HWK", "ISP", "han", "cjkp", "emo"], 0, ["UCM"], ["width_mapping_rule"], (0,),
                 invariants=["Agree", "MappingsAgree"], frame=(9, 3, 1, ("a", "han")) if q else (17, 5, 2, ("a", "eac", "han")))
     apply_l1(chk, ["wm"], nontrivial_key="wm")
-    l3_run(chk, "width", strings=400 if q else 5000, per_string=3, kinds=["width_mapping_rule", "width_mapping_rule", "prepare"], profiles=["UCM", "UCP"])
+    l3_run(chk, "width", strings=1000 if q else 6000, per_string=3, kinds=["width_mapping_rule", "width_mapping_rule", "prepare"], profiles=["UCM", "UCP"])
     chk.cov["exhaustive"] = True
     chk.cov["rule"] = ("every string of length <= %d over {ASCII, fullwidth upper/lower, halfwidth katakana, ideographic space, other "
                        "compatibility (roman numeral), 2- and 4-byte unmapped} through width_mapping_rule, <= %d through prepare; "
@@ -241,7 +247,7 @@ def C12(chk):
     profiles_mc(chk, "spaces-framed", ["SP", "NBSP", "OGH", "ISP", "han", "emo"], 0, ["NICK", "OPQ"], ["additional_mapping_rule", "enforce"], (0,),
                 invariants=["Agree", "MappingsAgree", "MappingsIdempotent"], frame=(8, 3, 2, ("a", "eac")) if q else (9, 9, 3, ("a", "eac", "SP")))
     apply_l1(chk, ["osp", "nsp"], nontrivial_key="zs")
-    l3_run(chk, "spaces", strings=400 if q else 5000, per_string=3, kinds=["additional_mapping_rule", "additional_mapping_rule", "enforce"], profiles=["NICK", "OPQ"], max_len=10)
+    l3_run(chk, "spaces", strings=1000 if q else 6000, per_string=3, kinds=["additional_mapping_rule", "additional_mapping_rule", "enforce"], profiles=["NICK", "OPQ"], max_len=10)
     chk.cov["exhaustive"] = True
     chk.cov["rule"] = ("every string of length <= %d over {SP, NBSP (2-byte Zs), OGHAM (3-byte Zs), 1/2/3/4-byte non-spaces} through both "
                        "additional mapping rules, <= %d through enforce; TLC checks two-phase scan (byte offsets, begin/prev_space "
@@ -292,7 +298,7 @@ def C03(chk):
     generic_mc(chk, "MC_Context", "neighbours", ["keraia", "grk", "GRK", "geresh", "heb", "hpt", "a", "l", "mdot"],
                {"MaxLen": n - 1 if q else n, "Rules": tla_set(["keraia", "hebrew", "middle_dot", "zwj"])}, CTX_INVS, insts)
     apply_l1(chk, ["reg", "vir", "greek", "hebrew", "kana", "ld", "rd", "md", "aidx", "eaidx", "own"], nontrivial_key="ctx")
-    l3_run(chk, "context", strings=500 if q else 6000, per_string=4, kinds=["ctx", "ctx", "ctx", "allows"])
+    l3_run(chk, "context", strings=1200 if q else 8000, per_string=4, kinds=["ctx", "ctx", "ctx", "allows"])
     chk.cov["exhaustive"] = True
     chk.cov["rule"] = ("every label of length <= %d over three generated alphabets (joiners with L/D/R/T/U joining types and a virama; "
                        "whole-label rules; Before/After rules), canonical + %d random instances; every public rule function at every "
@@ -389,8 +395,10 @@ def C09(chk):
             continue
         replay(chk, mc, "MC_Bidi %s len<=%d draws=%d" % (name, n, draws), harness_args=["--draws", str(draws)], classify=classify_std,
                need_oracle=True)
+    profiles_mc(chk, "bidi-framed", ["heb", "arab", "aid", "d1", "hpt", "dot", "a"], 0, ["UCM", "UCP"], ["directionality_rule", "enforce"], (0,),
+                invariants=["Agree"], frame=(8, 3, 1, ("a", "heb", "eac")) if q else (9, 5, 2, ("a", "heb", "eac", "hpt")))
     apply_l1(chk, ["bidi"], nontrivial_key="bidi_nonL")
-    l3_run(chk, "directionality", strings=500 if q else 6000, per_string=3, kinds=["directionality_rule", "directionality_rule", "enforce"], profiles=["UCM", "UCP"])
+    l3_run(chk, "directionality", strings=1200 if q else 8000, per_string=3, kinds=["directionality_rule", "directionality_rule", "enforce"], profiles=["UCM", "UCP"])
     chk.cov["rule"] = ("product of the RFC 5893 monitor and the scans over all 23 classes: labels of EVERY length (finite model, exhaustive); "
                        "bounded: every class sequence of length <= 3 over 23 classes and <= %d over 9 representative classes, each instantiated "
                        "with code points assigned in 16.0.0 (first member and seeded random members of the class) and sent through "
@@ -638,7 +646,7 @@ def C16(chk):
     from l3 import session_run
     session_run(chk, processes=6 if q else 60, threads=8, calls=40 if q else 60)
     # (4) single-threaded histories: several different calls on the same string in a row
-    l3_run(chk, "histories", strings=400 if q else 5000, per_string=6, max_len=6)
+    l3_run(chk, "histories", strings=1000 if q else 6000, per_string=6, max_len=6)
     chk.cov["rule"] = ("design: the session machine (threads x Once cells of the lazy statics x API forms), every interleaving of 3 threads x 1 "
                        "call and 2 threads x 2 calls (thorough: 3 x 2), safety + every call returns; code: every string <= %d over two alphabets "
                        "(incl. final-sigma and dotted-I contexts) through static / long-lived / fresh instance x &str / String / Cow::Borrowed / "
